@@ -25,4 +25,499 @@ topic that is being delivered further down the call stack, nor to one of its own
 def Stratified (h : Handler) (ops : List BusOp) (rank : Topic → Nat) : Prop :=
   ∀ k v T' v', (T', v') ∈ h k v → ∀ T ∈ subscribedTopics ops k, rank T < rank T'
 
+/-! ## topic naming: general string lemmas -/
+
+/-- same prefix, same suffix: the middle parts are equal. -/
+theorem topic_cancel (p a b s : String) (h : p ++ a ++ s = p ++ b ++ s) : a = b := by
+  have h' := congrArg String.toList h
+  simp only [String.toList_append, List.append_assoc, List.append_cancel_left_eq,
+    List.append_cancel_right_eq] at h'
+  exact String.toList_inj.mp h'
+
+/-- same prefix, suffixes neither of which is a suffix of the other: never equal, whatever
+the middle parts.  (This is exact: if one suffix is a suffix of the other, two names collide.) -/
+theorem topic_ne_of_suffix (p a b s₁ s₂ : String)
+    (h₁ : ¬ s₁.toList <:+ s₂.toList) (h₂ : ¬ s₂.toList <:+ s₁.toList) :
+    p ++ a ++ s₁ ≠ p ++ b ++ s₂ := by
+  intro h
+  have h' := congrArg String.toList h
+  simp only [String.toList_append, List.append_assoc, List.append_cancel_left_eq] at h'
+  rcases List.append_eq_append_iff.mp h' with ⟨c, _, hc⟩ | ⟨c, _, hc⟩
+  · exact h₂ ⟨c, hc.symm⟩
+  · exact h₁ ⟨c, hc.symm⟩
+
+/-! ## association maps -/
+
+theorem alookup_upsert {κ β : Type} [DecidableEq κ] (m : List (κ × β)) (x y : κ) (v : β) :
+    alookup (upsert m x v) y = if x = y then some v else alookup m y := by
+  induction m with
+  | nil => simp [upsert, alookup]
+  | cons p t ih =>
+    obtain ⟨k, w⟩ := p
+    by_cases hkx : k = x
+    · subst hkx
+      by_cases hky : k = y <;> simp [upsert, alookup, hky]
+    · by_cases hky : k = y
+      · subst hky
+        simp [upsert, alookup, hkx, Ne.symm hkx]
+      · simp [upsert, alookup, hkx, hky, ih]
+
+theorem agetD_upsert {κ β : Type} [DecidableEq κ] (m : List (κ × β)) (x y : κ) (v d : β) :
+    agetD (upsert m x v) y d = if x = y then v else agetD m y d := by
+  unfold agetD
+  rw [alookup_upsert]
+  split <;> rfl
+
+theorem mem_sinsert {α : Type} [DecidableEq α] (s : List α) (x y : α) :
+    y ∈ sinsert s x ↔ y ∈ s ∨ y = x := by
+  unfold sinsert
+  split
+  · constructor
+    · exact Or.inl
+    · rintro (h | rfl) <;> assumption
+  · simp
+
+theorem nodup_sinsert {α : Type} [DecidableEq α] (s : List α) (x : α) (h : s.Nodup) :
+    (sinsert s x).Nodup := by
+  unfold sinsert
+  split
+  · exact h
+  · rename_i hx
+    rw [List.nodup_append]
+    refine ⟨h, by simp, ?_⟩
+    intro a ha b hb
+    simp at hb
+    subst hb
+    rintro rfl
+    exact hx ha
+
+/-! ## the ghost delivery log -/
+
+/-- append ghost deliveries -/
+def Bus.addRecv (b : Bus) (es : List (Cid × Topic × Int)) : Bus := { b with recv := b.recv ++ es }
+
+/-- the values of the `(k, T)` entries of a delivery list -/
+def recvOf (es : List (Cid × Topic × Int)) (k : Cid) (T : Topic) : List Int :=
+  (es.filter (fun e => e.1 == k && e.2.1 == T)).map (·.2.2)
+
+theorem Bus.received_addRecv (b : Bus) (es : List (Cid × Topic × Int)) (k : Cid) (T : Topic) :
+    (b.addRecv es).received k T = b.received k T ++ recvOf es k T := by
+  simp [Bus.received, Bus.addRecv, recvOf]
+
+@[simp] theorem Bus.addRecv_subs (b : Bus) (es) : (b.addRecv es).subs = b.subs := rfl
+@[simp] theorem Bus.addRecv_topics (b : Bus) (es) : (b.addRecv es).topics = b.topics := rfl
+@[simp] theorem Bus.addRecv_subsOf (b : Bus) (es) (T : Topic) :
+    (b.addRecv es).subsOf T = b.subsOf T := rfl
+@[simp] theorem Bus.addRecv_log (b : Bus) (es) (T : Topic) : (b.addRecv es).log T = b.log T := rfl
+
+@[simp] theorem Bus.addRecv_nil (b : Bus) : b.addRecv [] = b := by
+  simp [Bus.addRecv]
+
+theorem Bus.addRecv_addRecv (b : Bus) (es es') :
+    (b.addRecv es).addRecv es' = b.addRecv (es ++ es') := by
+  simp [Bus.addRecv]
+
+theorem recvOf_eq_nil (es : List (Cid × Topic × Int)) (k : Cid) (T : Topic)
+    (h : ∀ e ∈ es, e.2.1 ≠ T) : recvOf es k T = [] := by
+  unfold recvOf
+  rw [List.map_eq_nil_iff, List.filter_eq_nil_iff]
+  intro e he
+  simp [h e he]
+
+theorem recvOf_cons (e : Cid × Topic × Int) (es : List (Cid × Topic × Int)) (k : Cid) (T : Topic) :
+    recvOf (e :: es) k T = (if e.1 = k ∧ e.2.1 = T then [e.2.2] else []) ++ recvOf es k T := by
+  unfold recvOf
+  by_cases hc : e.1 = k ∧ e.2.1 = T
+  · simp [hc]
+  · simp [hc]
+
+theorem recvOf_map_cid (ks : List Cid) (T : Topic) (v : Int) (k : Cid) (T' : Topic)
+    (hnd : ks.Nodup) :
+    recvOf (ks.map (fun k' => (k', T, v))) k T' = if T = T' ∧ k ∈ ks then [v] else [] := by
+  induction ks with
+  | nil => simp [recvOf]
+  | cons a ks ih =>
+    rw [List.nodup_cons] at hnd
+    rw [List.map_cons, recvOf_cons, ih hnd.2]
+    by_cases hT : T = T'
+    · by_cases hak : a = k
+      · subst hak; simp [hT, hnd.1]
+      · have hka : ¬ k = a := fun h => hak h.symm
+        simp [hT, hak, hka]
+    · simp [hT]
+
+theorem recvOf_map_val (vs : List Int) (k : Cid) (T : Topic) (k' : Cid) (T' : Topic) :
+    recvOf (vs.map (fun v => (k, T, v))) k' T' = if k = k' ∧ T = T' then vs else [] := by
+  induction vs with
+  | nil => simp [recvOf]
+  | cons a vs ih =>
+    rw [List.map_cons, recvOf_cons, ih]
+    by_cases hc : k = k' ∧ T = T' <;> simp [hc]
+
+/-! ## the effect relation -/
+
+/-- `b'` is reached from `b` by publications to topics of rank `≥ r` only, each of them
+delivered exactly to the subscribers, in publication order: every topic log gets a suffix
+`s` appended (empty below rank `r`), every subscriber of that topic receives exactly `s`
+from it, non-subscribers nothing; subscriptions are unchanged. -/
+structure Bus.Step (rank : Topic → Nat) (r : Nat) (b b' : Bus) : Prop where
+  subs : b'.subs = b.subs
+  eff : ∀ T, ∃ s, b'.log T = b.log T ++ s ∧ (rank T < r → s = []) ∧
+      ∀ k, b'.received k T = b.received k T ++ (if k ∈ b.subsOf T then s else [])
+
+theorem Bus.Step.subsOf {rank r b b'} (h : Bus.Step rank r b b') (T : Topic) :
+    b'.subsOf T = b.subsOf T := by
+  unfold Bus.subsOf; rw [h.subs]
+
+theorem Bus.Step.refl (rank r b) : Bus.Step rank r b b :=
+  ⟨rfl, fun _ => ⟨[], by simp⟩⟩
+
+theorem Bus.Step.trans {rank r b b' b''} (h₁ : Bus.Step rank r b b') (h₂ : Bus.Step rank r b' b'') :
+    Bus.Step rank r b b'' := by
+  refine ⟨h₂.subs.trans h₁.subs, fun T => ?_⟩
+  obtain ⟨s₁, hl₁, hr₁, hk₁⟩ := h₁.eff T
+  obtain ⟨s₂, hl₂, hr₂, hk₂⟩ := h₂.eff T
+  refine ⟨s₁ ++ s₂, by rw [hl₂, hl₁, List.append_assoc], fun hlt => by simp [hr₁ hlt, hr₂ hlt],
+    fun k => ?_⟩
+  rw [hk₂, hk₁, h₁.subsOf]
+  split <;> simp
+
+theorem Bus.Step.mono {rank r r' b b'} (h : Bus.Step rank r b b') (hr : r' ≤ r) :
+    Bus.Step rank r' b b' := by
+  refine ⟨h.subs, fun T => ?_⟩
+  obtain ⟨s, hl, hr', hk⟩ := h.eff T
+  exact ⟨s, hl, fun hlt => hr' (by omega), hk⟩
+
+/-- ghost deliveries on topics below `r` commute with a step. -/
+theorem Bus.Step.addRecv {rank r b b'} (h : Bus.Step rank r b b') (es : List (Cid × Topic × Int))
+    (hes : ∀ e ∈ es, rank e.2.1 < r) : Bus.Step rank r (b.addRecv es) (b'.addRecv es) := by
+  refine ⟨h.subs, fun T => ?_⟩
+  obtain ⟨s, hl, hr, hk⟩ := h.eff T
+  refine ⟨s, hl, hr, fun k => ?_⟩
+  rw [Bus.received_addRecv, Bus.received_addRecv, hk, Bus.addRecv_subsOf]
+  by_cases hlt : rank T < r
+  · simp [hr hlt]
+  · rw [recvOf_eq_nil es k T (fun e he heq => hlt (heq ▸ hes e he))]
+    simp
+
+/-! ## well-formedness of the subscription table -/
+
+/-- subscriber lists are duplicate free and only contain consumers that subscribe to the
+topic somewhere in the history `ops`. -/
+def Bus.WF (ops : List BusOp) (b : Bus) : Prop :=
+  (∀ T, (b.subsOf T).Nodup) ∧ ∀ k T, k ∈ b.subsOf T → T ∈ subscribedTopics ops k
+
+theorem Bus.WF.of_subs_eq {ops b b'} (h : Bus.WF ops b) (hs : b'.subs = b.subs) : Bus.WF ops b' := by
+  unfold Bus.WF Bus.subsOf at *
+  rw [hs]; exact h
+
+/-! ## the mutual block -/
+
+section Mutual
+variable {h : Handler} {ops : List BusOp} {rank : Topic → Nat}
+
+/-- the statement proved about `push` by strong induction on the fuel. -/
+def PushOK (h : Handler) (ops : List BusOp) (rank : Topic → Nat) (n : Nat) : Prop :=
+  ∀ b T v, Bus.WF ops b → Bus.Step rank (rank T) b (Bus.push h n b T v)
+
+theorem pushAll_step (n : Nat) (ih : ∀ m < n, PushOK h ops rank m) (r : Nat)
+    (ps : List (Topic × Int)) (b : Bus) (hwf : Bus.WF ops b) (hps : ∀ p ∈ ps, r ≤ rank p.1) :
+    Bus.Step rank r b (Bus.pushAll h n ps b) := by
+  induction ps generalizing b with
+  | nil => rw [Bus.pushAll.eq_1]; exact Bus.Step.refl ..
+  | cons p ps ihps =>
+    obtain ⟨T, v⟩ := p
+    cases n with
+    | zero => rw [Bus.pushAll.eq_2 h _ b (by simp)]; exact Bus.Step.refl ..
+    | succ n =>
+      rw [Bus.pushAll.eq_3]
+      have h1 : Bus.Step rank (rank T) b (Bus.push h n b T v) := ih n (by omega) b T v hwf
+      have h1' := h1.mono (hps (T, v) (by simp))
+      exact h1'.trans (ihps _ (hwf.of_subs_eq h1.subs) (fun p hp => hps p (by simp [hp])))
+
+theorem deliver_step (hstrat : Stratified h ops rank) (n : Nat) (ih : ∀ m < n, PushOK h ops rank m)
+    (b : Bus) (k : Cid) (T : Topic) (v : Int) (hwf : Bus.WF ops b)
+    (hk : T ∈ subscribedTopics ops k) :
+    Bus.Step rank (rank T + 1) (b.addRecv [(k, T, v)]) (Bus.deliver h n b k T v) := by
+  rw [Bus.deliver.eq_1]
+  exact pushAll_step n ih _ _ _ (hwf.of_subs_eq rfl)
+    (fun p hp => hstrat k v p.1 p.2 hp T hk)
+
+theorem deliverAll_step (hstrat : Stratified h ops rank) (n : Nat)
+    (ih : ∀ m < n, PushOK h ops rank m) (T : Topic) (v : Int) (ks : List Cid) (b : Bus)
+    (hwf : Bus.WF ops b) (hks : ∀ k ∈ ks, T ∈ subscribedTopics ops k) :
+    Bus.Step rank (rank T + 1) (b.addRecv (ks.map (fun k => (k, T, v))))
+      (Bus.deliverAll h n T v ks b) := by
+  induction ks generalizing b with
+  | nil => rw [Bus.deliverAll.eq_1, List.map_nil, Bus.addRecv_nil]; exact Bus.Step.refl ..
+  | cons k ks ihks =>
+    rw [Bus.deliverAll.eq_2]
+    have h1 := deliver_step hstrat n ih b k T v hwf (hks k (by simp))
+    have hwf1 : Bus.WF ops (Bus.deliver h n b k T v) := hwf.of_subs_eq h1.subs
+    have h2 := ihks _ hwf1 (fun k' hk' => hks k' (by simp [hk']))
+    have h3 := h1.addRecv (ks.map (fun k => (k, T, v))) (by simp)
+    rw [Bus.addRecv_addRecv] at h3
+    exact h3.trans h2
+
+theorem replay_step (hstrat : Stratified h ops rank) (n : Nat)
+    (ih : ∀ m < n, PushOK h ops rank m) (k : Cid) (T : Topic) (vs : List Int) (b : Bus)
+    (hwf : Bus.WF ops b) (hk : T ∈ subscribedTopics ops k) :
+    Bus.Step rank (rank T + 1) (b.addRecv (vs.map (fun v => (k, T, v))))
+      (Bus.replay h n k T vs b) := by
+  induction vs generalizing b with
+  | nil => rw [Bus.replay, List.map_nil, Bus.addRecv_nil]; exact Bus.Step.refl ..
+  | cons v vs ihvs =>
+    rw [Bus.replay]
+    have h1 := deliver_step hstrat n ih b k T v hwf hk
+    have hwf1 : Bus.WF ops (Bus.deliver h n b k T v) := hwf.of_subs_eq h1.subs
+    have h2 := ihvs _ hwf1
+    have h3 := h1.addRecv (vs.map (fun v => (k, T, v))) (by simp)
+    rw [Bus.addRecv_addRecv] at h3
+    exact h3.trans h2
+
+theorem push_step (hstrat : Stratified h ops rank) (n : Nat) : PushOK h ops rank n := by
+  induction n using Nat.strongRecOn with
+  | _ n ih =>
+    intro b T v hwf
+    cases n with
+    | zero => rw [Bus.push.eq_1]; exact Bus.Step.refl ..
+    | succ n =>
+      rw [Bus.push.eq_2]
+      let b1 : Bus := { b with topics := upsert b.topics T (b.log T ++ [v]) }
+      show Bus.Step rank (rank T) b (Bus.deliverAll h n T v (b.subsOf T) b1)
+      have hwf1 : Bus.WF ops b1 := hwf.of_subs_eq rfl
+      have h2 := deliverAll_step hstrat n (fun m hm => ih m (by omega)) T v (b.subsOf T) b1 hwf1
+        (fun k hk => hwf.2 k T hk)
+      refine Bus.Step.trans ?_ (h2.mono (Nat.le_succ _))
+      refine ⟨rfl, fun T' => ?_⟩
+      by_cases hT : T = T'
+      · subst hT
+        refine ⟨[v], ?_, fun hlt => absurd hlt (Nat.lt_irrefl _), fun k => ?_⟩
+        · simp [Bus.log, agetD_upsert, b1]
+        · rw [Bus.received_addRecv, recvOf_map_cid _ _ _ _ _ (hwf.1 T)]
+          simp [Bus.received, b1]
+      · refine ⟨[], ?_, fun _ => rfl, fun k => ?_⟩
+        · simp [Bus.log, agetD_upsert, hT, b1]
+        · rw [Bus.received_addRecv, recvOf_map_cid _ _ _ _ _ (hwf.1 T)]
+          simp [Bus.received, hT, b1]
+
+end Mutual
+
+/-! ## the invariant and the history fold -/
+
+/-- exactly once, in order, with replay, nothing from other topics. -/
+def Bus.Inv (b : Bus) : Prop :=
+  ∀ k T, b.received k T = if k ∈ b.subsOf T then b.log T else []
+
+theorem Bus.Step.inv {rank r b b'} (h : Bus.Step rank r b b') (hi : b.Inv) : b'.Inv := by
+  intro k T
+  obtain ⟨s, hl, _, hk⟩ := h.eff T
+  rw [hk, h.subsOf, hl, hi k T]
+  split <;> simp
+
+theorem subscribedTopics_append (xs ys : List BusOp) (k : Cid) :
+    subscribedTopics (xs ++ ys) k = subscribedTopics xs k ++ subscribedTopics ys k := by
+  simp [subscribedTopics]
+
+theorem subscribedTopics_subscribe (k' : Cid) (Ts : List Topic) (xs : List BusOp) (k : Cid) :
+    subscribedTopics (.subscribe k' Ts :: xs) k =
+      (if k' = k then Ts else []) ++ subscribedTopics xs k := by
+  simp [subscribedTopics]
+
+theorem subscribedTopics_produce (T : Topic) (v : Int) (xs : List BusOp) (k : Cid) :
+    subscribedTopics (.produce T v :: xs) k = subscribedTopics xs k := by
+  simp [subscribedTopics]
+
+section Fold
+variable {h : Handler} {ops : List BusOp} {rank : Topic → Nat}
+
+theorem subscribe_inv (hstrat : Stratified h ops rank) (n : Nat) (k : Cid) (Ts : List Topic)
+    (b : Bus) (hinv : b.Inv) (hwf : Bus.WF ops b)
+    (hTs : ∀ T ∈ Ts, T ∈ subscribedTopics ops k) (hnd : Ts.Nodup)
+    (hnew : ∀ T ∈ Ts, k ∉ b.subsOf T) :
+    (Bus.subscribe h n k Ts b).Inv ∧ Bus.WF ops (Bus.subscribe h n k Ts b) ∧
+      ∀ k' T, k' ∈ (Bus.subscribe h n k Ts b).subsOf T → k' ∈ b.subsOf T ∨ (k' = k ∧ T ∈ Ts) := by
+  induction Ts generalizing b with
+  | nil => rw [Bus.subscribe]; exact ⟨hinv, hwf, fun _ _ hk => Or.inl hk⟩
+  | cons T Ts ihTs =>
+    rw [Bus.subscribe]
+    rw [List.nodup_cons] at hnd
+    let b1 : Bus := { b with subs := upsert b.subs T (sinsert (b.subsOf T) k) }
+    show (Bus.subscribe h n k Ts (Bus.replay h n k T (b.log T) b1)).Inv ∧
+      Bus.WF ops (Bus.subscribe h n k Ts (Bus.replay h n k T (b.log T) b1)) ∧
+      ∀ k' T', k' ∈ (Bus.subscribe h n k Ts (Bus.replay h n k T (b.log T) b1)).subsOf T' →
+        k' ∈ b.subsOf T' ∨ (k' = k ∧ T' ∈ T :: Ts)
+    have hsub1 : ∀ T', b1.subsOf T' = if T = T' then sinsert (b.subsOf T) k else b.subsOf T' := by
+      intro T'
+      simp only [Bus.subsOf, b1, agetD_upsert]
+    have hkT : k ∉ b.subsOf T := hnew T (by simp)
+    have hwf1 : Bus.WF ops b1 := by
+      constructor
+      · intro T'
+        rw [hsub1]
+        split
+        · exact nodup_sinsert _ _ (hwf.1 T)
+        · exact hwf.1 T'
+      · intro k' T'
+        rw [hsub1]
+        split
+        · rename_i hTT
+          subst hTT
+          rw [mem_sinsert]
+          rintro (hk' | rfl)
+          · exact hwf.2 k' T hk'
+          · exact hTs T (by simp)
+        · exact hwf.2 k' T'
+    have hstep := replay_step hstrat n (fun m _ => push_step hstrat m) k T (b.log T) b1 hwf1
+      (hTs T (by simp))
+    have hinv1 : (b1.addRecv ((b.log T).map (fun v => (k, T, v)))).Inv := by
+      intro k' T'
+      rw [Bus.received_addRecv, recvOf_map_val, Bus.addRecv_subsOf, hsub1]
+      have hr : b1.received k' T' = b.received k' T' := rfl
+      have hl : (b1.addRecv ((b.log T).map (fun v => (k, T, v)))).log T' = b.log T' := rfl
+      rw [hr, hl, hinv k' T']
+      by_cases hT : T = T'
+      · subst hT
+        by_cases hk : k = k'
+        · subst hk
+          simp [hkT, mem_sinsert]
+        · have hk' : ¬ k' = k := fun e => hk e.symm
+          simp [hk, hk', mem_sinsert]
+      · simp [hT]
+    have hinv2 := hstep.inv hinv1
+    have hwf2 : Bus.WF ops (Bus.replay h n k T (b.log T) b1) := hwf1.of_subs_eq hstep.subs
+    have hsub2 : ∀ T', (Bus.replay h n k T (b.log T) b1).subsOf T' = b1.subsOf T' :=
+      fun T' => hstep.subsOf T'
+    have hnew2 : ∀ T' ∈ Ts, k ∉ (Bus.replay h n k T (b.log T) b1).subsOf T' := by
+      intro T' hT'
+      rw [hsub2, hsub1]
+      have hne : ¬ T = T' := fun e => hnd.1 (e ▸ hT')
+      rw [if_neg hne]
+      exact hnew T' (by simp [hT'])
+    obtain ⟨r1, r2, r3⟩ := ihTs _ hinv2 hwf2 (fun T' hT' => hTs T' (by simp [hT'])) hnd.2 hnew2
+    refine ⟨r1, r2, fun k' T' hk' => ?_⟩
+    rcases r3 k' T' hk' with hk'' | ⟨rfl, hT'⟩
+    · rw [hsub2, hsub1] at hk''
+      split at hk''
+      · rename_i hTT
+        subst hTT
+        rw [mem_sinsert] at hk''
+        rcases hk'' with hk'' | rfl
+        · exact Or.inl hk''
+        · exact Or.inr ⟨rfl, by simp⟩
+      · exact Or.inl hk''
+    · exact Or.inr ⟨rfl, by simp [hT']⟩
+
+theorem fold_inv (hstrat : Stratified h ops rank) (honce : SubscribeOnce ops) (n : Nat)
+    (post pre : List BusOp) (b : Bus) (heq : pre ++ post = ops) (hinv : b.Inv)
+    (hwf : Bus.WF ops b) (hpre : ∀ k T, k ∈ b.subsOf T → T ∈ subscribedTopics pre k) :
+    (post.foldl (Bus.apply h n) b).Inv := by
+  induction post generalizing pre b with
+  | nil => exact hinv
+  | cons op post ihp =>
+    rw [List.foldl_cons]
+    have heq' : (pre ++ [op]) ++ post = ops := by simpa using heq
+    cases op with
+    | produce T v =>
+      have hstep := push_step hstrat n b T v hwf
+      refine ihp (pre ++ [.produce T v]) _ heq' (hstep.inv hinv) (hwf.of_subs_eq hstep.subs) ?_
+      intro k T' hk
+      rw [show Bus.apply h n b (.produce T v) = Bus.push h n b T v from rfl, hstep.subsOf] at hk
+      rw [subscribedTopics_append]
+      exact List.mem_append_left _ (hpre k T' hk)
+    | subscribe k Ts =>
+      have hall : subscribedTopics ops k =
+          subscribedTopics pre k ++ (Ts ++ subscribedTopics post k) := by
+        rw [← heq, subscribedTopics_append, subscribedTopics_subscribe, if_pos rfl]
+      have hnd := honce k
+      rw [hall, List.nodup_append] at hnd
+      obtain ⟨_, hnd2, hdisj⟩ := hnd
+      rw [List.nodup_append] at hnd2
+      have hTs : ∀ T ∈ Ts, T ∈ subscribedTopics ops k := by
+        intro T hT
+        rw [hall]
+        simp [hT]
+      have hnew : ∀ T ∈ Ts, k ∉ b.subsOf T := by
+        intro T hT hk
+        exact hdisj T (hpre k T hk) T (by simp [hT]) rfl
+      obtain ⟨r1, r2, r3⟩ := subscribe_inv hstrat n k Ts b hinv hwf hTs hnd2.1 hnew
+      refine ihp (pre ++ [.subscribe k Ts]) _ heq' r1 r2 ?_
+      intro k' T' hk'
+      rw [subscribedTopics_append, subscribedTopics_subscribe]
+      rcases r3 k' T' hk' with hk'' | ⟨rfl, hT'⟩
+      · exact List.mem_append_left _ (hpre k' T' hk'')
+      · simp [hT']
+
+theorem bus_inv_of_history (hstrat : Stratified h ops rank) (honce : SubscribeOnce ops) (n : Nat) :
+    (ops.foldl (Bus.apply h n) {}).Inv := by
+  refine fold_inv hstrat honce n ops [] {} rfl ?_ ?_ ?_
+  · intro k T; simp [Bus.received, Bus.subsOf, agetD, alookup]
+  · constructor
+    · intro T; simp [Bus.subsOf, agetD, alookup]
+    · intro k T; simp [Bus.subsOf, agetD, alookup]
+  · intro k T; simp [Bus.subsOf, agetD, alookup]
+
+end Fold
+
+/-! ## no handlers: the logs are the produced values -/
+
+section NoHandlers
+
+/-- the handler that never publishes -/
+abbrev noHandler : Handler := fun _ _ => []
+
+theorem deliver_noHandler (n : Nat) (b : Bus) (k : Cid) (T : Topic) (v : Int) :
+    Bus.deliver noHandler n b k T v = b.addRecv [(k, T, v)] := by
+  rw [Bus.deliver.eq_1, Bus.pushAll.eq_1]; rfl
+
+theorem deliverAll_noHandler_topics (n : Nat) (T : Topic) (v : Int) (ks : List Cid) (b : Bus) :
+    (Bus.deliverAll noHandler n T v ks b).topics = b.topics := by
+  induction ks generalizing b with
+  | nil => rw [Bus.deliverAll.eq_1]
+  | cons k ks ih => rw [Bus.deliverAll.eq_2, ih, deliver_noHandler]; rfl
+
+theorem replay_noHandler_topics (n : Nat) (k : Cid) (T : Topic) (vs : List Int) (b : Bus) :
+    (Bus.replay noHandler n k T vs b).topics = b.topics := by
+  induction vs generalizing b with
+  | nil => rw [Bus.replay]
+  | cons v vs ih => rw [Bus.replay, ih, deliver_noHandler]; rfl
+
+theorem subscribe_noHandler_topics (n : Nat) (k : Cid) (Ts : List Topic) (b : Bus) :
+    (Bus.subscribe noHandler n k Ts b).topics = b.topics := by
+  induction Ts generalizing b with
+  | nil => rw [Bus.subscribe]
+  | cons T Ts ih => rw [Bus.subscribe, ih, replay_noHandler_topics]
+
+theorem push_noHandler_log (n : Nat) (b : Bus) (T : Topic) (v : Int) (T' : Topic) :
+    (Bus.push noHandler (n + 1) b T v).log T' = if T = T' then b.log T ++ [v] else b.log T' := by
+  rw [Bus.push.eq_2]
+  unfold Bus.log
+  rw [deliverAll_noHandler_topics]
+  simp only [agetD_upsert]
+
+theorem fold_noHandler_log (ops : List BusOp) (n : Nat) (b : Bus) (T : Topic) :
+    (ops.foldl (Bus.apply noHandler (n + 1)) b).log T =
+      b.log T ++ ops.filterMap (fun op => match op with
+        | .produce T' v => if T' = T then some v else none
+        | .subscribe _ _ => none) := by
+  induction ops generalizing b with
+  | nil => simp
+  | cons op ops ih =>
+    rw [List.foldl_cons, ih]
+    cases op with
+    | produce T' v =>
+      rw [show Bus.apply noHandler (n + 1) b (.produce T' v) = Bus.push noHandler (n + 1) b T' v
+        from rfl, push_noHandler_log]
+      by_cases hT : T' = T
+      · subst hT; simp
+      · simp [hT]
+    | subscribe k Ts =>
+      rw [show Bus.apply noHandler (n + 1) b (.subscribe k Ts) = Bus.subscribe noHandler (n + 1) k Ts b
+        from rfl]
+      unfold Bus.log
+      rw [subscribe_noHandler_topics]
+      simp
+
+end NoHandlers
+
 end Tickit
